@@ -22,8 +22,8 @@ COMMON = {"FoldMap": "<- Fold", "DefaultDelim": "<- MCDefaultDelim"}
 MODELS = {
     "Query": {
         "module": "mc/MC_Query.tla", "spec": "MCSpec",
-        "constants": {"quick": {"MaxRecs": 2, "ProbeLen": 3, "Tier": '"quick"'},
-                      "thorough": {"MaxRecs": 2, "ProbeLen": 4, "Tier": '"thorough"'}},
+        "constants": {"quick": {"MaxRecs": 2, "ProbeLen": 3, "Tier": '"quick"', "MaxSyn": 1},
+                      "thorough": {"MaxRecs": 2, "ProbeLen": 4, "Tier": '"thorough"', "MaxSyn": 1}},
         "always": ["Inv_Struct"],
     },
     "Incr": {
@@ -52,12 +52,12 @@ MODELS = {
 
 # property -> list of (model, invariants, extra constants)
 PLAN = {
-    "C01": [("Query", ["Inv_C01"], {}), ("Incr", ["Inv_C01"], {"MaxOps": 2})],
-    "C02": [("Query", ["Inv_C02"], {}), ("Incr", ["Inv_C02"], {"MaxOps": 2})],
-    "C03": [("Query", ["Inv_C03"], {}), ("Incr", ["Inv_C03"], {"MaxOps": 2})],
-    "C06": [("Query", ["Inv_C06"], {}), ("Incr", ["Inv_C06"], {"MaxOps": 2})],
-    "C07": [("Query", ["Inv_C07"], {}), ("Incr", ["Inv_C07"], {"MaxOps": 2})],
-    "C08": [("Query", ["Inv_C08", "Inv_C08pair"], {}), ("Incr", ["Inv_C08"], {"MaxOps": 2})],
+    "C01": [("Query", ["Inv_C01"], {}), ("Query", ["Inv_C01"], {"MaxRecs": 3, "MaxSyn": 0}), ("Incr", ["Inv_C01"], {"MaxOps": 2})],
+    "C02": [("Query", ["Inv_C02"], {}), ("Query", ["Inv_C02"], {"MaxRecs": 3, "MaxSyn": 0}), ("Incr", ["Inv_C02"], {"MaxOps": 2})],
+    "C03": [("Query", ["Inv_C03"], {}), ("Query", ["Inv_C03"], {"MaxRecs": 3, "MaxSyn": 0}), ("Incr", ["Inv_C03"], {"MaxOps": 2})],
+    "C06": [("Query", ["Inv_C06"], {}), ("Query", ["Inv_C06"], {"MaxRecs": 3, "MaxSyn": 0}), ("Incr", ["Inv_C06"], {"MaxOps": 2})],
+    "C07": [("Query", ["Inv_C07"], {}), ("Query", ["Inv_C07"], {"MaxRecs": 3, "MaxSyn": 0}), ("Incr", ["Inv_C07"], {"MaxOps": 2})],
+    "C08": [("Query", ["Inv_C08", "Inv_C08pair"], {}), ("Query", ["Inv_C08"], {"MaxRecs": 3, "MaxSyn": 0}), ("Incr", ["Inv_C08"], {"MaxOps": 2})],
     "C04": [("Build", ["Inv_C04", "Inv_C04load"], {})],
     "C13": [("Build", ["Inv_C13"], {})],
     "C05": [("Incr", [], {}), ("Incr", [], {"MaxOps": 1, "Wide": "TRUE"})],
@@ -98,7 +98,7 @@ def model_check(model, tier, invariants, extra, timeout, want_dump=True):
         cfg = os.path.join(d, "model.cfg")
         write_cfg(cfg, model, tier, invariants, extra)
         dump = os.path.join(d, "states.dump") if want_dump else None
-        out, wall, rc = tlc.run_tlc(MODELS[model]["module"], cfg, timeout=timeout, dump=dump, coverage=False)
+        out, wall, rc = tlc.run_tlc(MODELS[model]["module"], cfg, timeout=timeout, dump=dump, coverage=not want_dump)
         viol = tlc.violated_invariant(out)
         err = tlc.tlc_error(out)
         if err and not viol:
@@ -117,6 +117,8 @@ def model_check(model, tier, invariants, extra, timeout, want_dump=True):
         if viol:
             tr = tlaval.error_trace(out, want=("hist",))
             cex = tr[-1].get("hist") if tr else None
+        if not want_dump:
+            st["action_coverage"] = tlc.action_coverage(out)
         return {"model": model, "stats": st, "violated": viol, "cex": cex, "histories": hists, "wall": wall, "out": out}
     finally:
         shutil.rmtree(d, ignore_errors=True)
